@@ -505,6 +505,9 @@ func (p RXParamSetupReqPayload) MarshalBinary() ([]byte, error) {
 	if p.Frequency%100 != 0 {
 		return b, errors.New("lorawan: Frequency must be a multiple of 100")
 	}
+	if p.DLSettings.OptNeg {
+		return b, errors.New("lorawan: OptNeg is not part of the RXParamSetupReq DLSettings (RFU)")
+	}
 	bytes, err := p.DLSettings.MarshalBinary()
 	if err != nil {
 		return b, err
